@@ -4,6 +4,9 @@ import (
 	"context"
 	"database/sql/driver"
 	"errors"
+	"sync"
+
+	"gorm.io/gorm/internal/verifrt"
 )
 
 // The only model of a database: durable write tokens, per-transaction pending
@@ -67,22 +70,26 @@ type RowSet struct {
 }
 
 type Store struct {
-	Log            []Event
-	Durable        []int
-	txs            []*txState
-	calls          int
-	FaultAt        int // k-th BEGIN/EXEC/QUERY/COMMIT boundary call fails (0 = none)
-	PrepareFaultAt int // k-th PREPARE fails (0 = none)
-	prepCalls      int
-	FaultErr       error // default errInjected
-	nextTok        int
-	OpenStmts      int
-	Prepared       int
-	OpenRows       int
-	CtxCancel      int // context tag that is "cancelled": every call with it fails
-	OnExec         func(text string, args []driver.Value) Result
-	OnQuery        func(text string, args []driver.Value) RowSet
-	NoSavepoint    bool
+	Log                 []Event
+	Durable             []int
+	txs                 []*txState
+	calls               int
+	FaultAt             int  // k-th BEGIN/EXEC/QUERY/COMMIT boundary call fails (0 = none)
+	PrepareFaultAt      int  // k-th PrepareContext issued by gorm fails (0 = none); see faultPool
+	DriverPrepareFaults bool // apply the plan to driver-level prepares instead
+	prepCalls           int
+	gormPrepares        int // PrepareContext calls issued by gorm (faultPool)
+	gormPrepareTexts    []string
+	noteMu              sync.Mutex
+	FaultErr            error // default errInjected
+	nextTok             int
+	OpenStmts           int
+	Prepared            int
+	OpenRows            int
+	CtxCancel           int // context tag that is "cancelled": every call with it fails
+	OnExec              func(text string, args []driver.Value) Result
+	OnQuery             func(text string, args []driver.Value) RowSet
+	NoSavepoint         bool
 }
 
 func NewStore() *Store { return &Store{} }
@@ -95,7 +102,7 @@ func (s *Store) faultPrepare(ctx int) error {
 	if s.CtxCancel != 0 && ctx == s.CtxCancel {
 		return context.Canceled
 	}
-	if s.PrepareFaultAt != 0 && s.prepCalls == s.PrepareFaultAt {
+	if s.PrepareFaultAt != 0 && s.prepCalls == s.PrepareFaultAt && s.DriverPrepareFaults {
 		if s.FaultErr != nil {
 			return s.FaultErr
 		}
@@ -122,6 +129,7 @@ func (s *Store) fault(ctx int) error {
 func (s *Store) Calls() int { return s.calls }
 
 func (s *Store) Begin(ctx int) (*txState, error) {
+	verifrt.Yield() // every boundary call is a scheduling point
 	if err := s.fault(ctx); err != nil {
 		s.Log = append(s.Log, Event{Kind: "BEGIN", Ctx: ctx, Fail: true})
 		return nil, err
@@ -133,6 +141,7 @@ func (s *Store) Begin(ctx int) (*txState, error) {
 }
 
 func (s *Store) Commit(tx *txState) error {
+	verifrt.Yield()
 	if tx.done {
 		return errTxDone
 	}
@@ -173,6 +182,7 @@ func (s *Store) OpenTx() int {
 func hasPrefix(s, p string) bool { return len(s) >= len(p) && s[:len(p)] == p }
 
 func (s *Store) Exec(tx *txState, ctx int, text string, args []driver.Value) (Result, error) {
+	verifrt.Yield()
 	txid := 0
 	if tx != nil {
 		txid = tx.id
@@ -227,6 +237,7 @@ func (s *Store) Exec(tx *txState, ctx int, text string, args []driver.Value) (Re
 }
 
 func (s *Store) Query(tx *txState, ctx int, text string, args []driver.Value) (RowSet, error) {
+	verifrt.Yield()
 	txid := 0
 	if tx != nil {
 		txid = tx.id
@@ -247,6 +258,7 @@ func (s *Store) Query(tx *txState, ctx int, text string, args []driver.Value) (R
 }
 
 func (s *Store) Prepare(tx *txState, ctx int, text string) error {
+	verifrt.Yield()
 	txid := 0
 	if tx != nil {
 		txid = tx.id
@@ -262,6 +274,7 @@ func (s *Store) Prepare(tx *txState, ctx int, text string) error {
 }
 
 func (s *Store) CloseStmt(text string) {
+	verifrt.Yield()
 	s.OpenStmts--
 	s.Log = append(s.Log, Event{Kind: "CLOSE-STMT", Text: text})
 }
@@ -339,4 +352,10 @@ func (s *Store) Kinds() []string {
 		r = append(r, k)
 	}
 	return r
+}
+
+func (s *Store) notePrepare(text string) {
+	s.noteMu.Lock()
+	s.gormPrepareTexts = append(s.gormPrepareTexts, text)
+	s.noteMu.Unlock()
 }
